@@ -186,15 +186,69 @@ Definition final_phases (c : scase) : option (phase * phase) :=
   | _ => None
   end.
 
+(* ---- what the hash comparison of syncNode can see ----
+   syncNode compares the device's hash (edge points taken out) and descends only through edges that both
+   sides hold with different stored hashes.  Because a point's CRC does not cover the node it belongs to
+   and hashes are combined by XOR, two different subtrees can carry the same hash (the same point written
+   to two sibling nodes on opposite sides during an outage): such a difference is invisible to every
+   later catch-up.  [blind_only] says that every difference between the two dumps is of that kind while
+   all stored hashes are the correct Merkle hashes of the dumped content. *)
+Definition find_view (vs : list edge_view) (up down : bytes) : option edge_view :=
+  find (fun v => bytes_eqb (v_up v) up && bytes_eqb (v_down v) down) vs.
+Definition dev_view (dev : bytes) (vs : list edge_view) : option edge_view :=
+  find (fun v => bytes_eqb (v_down v) dev) vs.
+Definition top_hash (v : edge_view) : N := N.lxor (v_hash v) (xor_crcs (v_epts v)).
+Definition top_differs (dev : bytes) (d u : list edge_view) : bool :=
+  match dev_view dev d, dev_view dev u with
+  | Some a, Some b => negb (top_hash a =? top_hash b)
+  | _, _ => true
+  end.
+Definition mem (x : bytes) (l : list bytes) : bool := existsb (bytes_eqb x) l.
+(* the nodes whose children a catch-up enumerates *)
+Fixpoint visible (f : nat) (d u : list edge_view) (seen : list bytes) : list bytes :=
+  match f with
+  | O => seen
+  | S f' =>
+      let next := flat_map (fun v => if mem (v_up v) seen && negb (mem (v_down v) seen)
+                                     then match find_view u (v_up v) (v_down v) with
+                                          | Some w => if v_hash v =? v_hash w then [] else [v_down v]
+                                          | None => []
+                                          end
+                                     else []) d in
+      match next with [] => seen | _ => visible f' d u (seen ++ next) end
+  end.
+Definition blind_view (dev : bytes) (d u : list edge_view) (vis : list bytes) (v : edge_view) : bool :=
+  if bytes_eqb (v_down v) dev then negb (top_differs dev d u)
+  else negb (mem (v_up v) vis) ||
+       match find_view d (v_up v) (v_down v), find_view u (v_up v) (v_down v) with
+       | Some a, Some b => v_hash a =? v_hash b
+       | _, _ => false
+       end.
+Definition unmatched (dev : bytes) (a b : list edge_view) : list edge_view :=
+  filter (fun v => negb (existsb (view_eqb (canon_view dev v)) (map (canon_view dev) b))) a.
+Definition blind_only (dev : bytes) (d u : list edge_view) : bool :=
+  spec_hashes_ok d && spec_hashes_ok u &&
+  let vis := if top_differs dev d u then visible (S (length d)) d u [dev] else [] in
+  forallb (blind_view dev d u vis) (unmatched dev d u ++ unmatched dev u d).
+
+Definition converged (c : scase) (ph : phase) : bool :=
+  views_eqb (canon (sc_dev c) (ph_d ph)) (canon (sc_dev c) (ph_u ph)).
+
+(* hard part: no error, no accepted write lost, and whenever the link is up every difference that the hash
+   comparison can see is gone *)
 Definition spec_c02 (c : scase) : bool :=
   negb (sc_err c) &&
-  forallb (fun ph => if ph_up ph then views_eqb (canon (sc_dev c) (ph_d ph)) (canon (sc_dev c) (ph_u ph)) else true) (sc_phases c) &&
+  forallb (fun ph => if ph_up ph then converged c ph || blind_only (sc_dev c) (ph_d ph) (ph_u ph) else true) (sc_phases c) &&
   match final_phases c with
   | Some (prev, last) =>
       covers (canon (sc_dev c) (ph_d last)) (canon (sc_dev c) (ph_d prev)) &&
       covers (canon (sc_dev c) (ph_u last)) (canon (sc_dev c) (ph_u prev))
   | None => true
   end.
+(* the full convergence clause of the property (coded separately: its failures that pass [spec_c02] are
+   exactly the hash-blind differences, a recorded finding) *)
+Definition spec_c02_conv (c : scase) : bool :=
+  forallb (fun ph => if ph_up ph then converged c ph else true) (sc_phases c).
 
 (* correspondence: catch-up of the model from the two dumps taken at the end of the outage gives the
    two dumps observed after the link came back *)
@@ -211,4 +265,4 @@ Definition corr_c02 (c : scase) : bool :=
   | None => true
   end.
 
-Definition check_c02 := check_with scase_of_val (fun c => code (corr_c02 c) (spec_c02 c)).
+Definition check_c02 := check_with scase_of_val (fun c => (code (corr_c02 c) (spec_c02 c) + (if spec_c02_conv c then 0 else 4))%N).
